@@ -263,13 +263,16 @@ class FortranAST:
                 include_file = workspace[file_path]
                 include_ast = include_file.ast
                 inc.file = include_file
+                # Remove the objects added from an earlier version of the file,
+                # the new version may not declare anything anymore
+                if parent_scope is not None:
+                    for obj in added_entities:
+                        if obj in parent_scope.children:
+                            parent_scope.children.remove(obj)
+                inc.scope_objs = added_entities = []
                 if include_ast.none_scope:
                     if include_ast.inc_scope is None:
                         include_ast.inc_scope = include_ast.none_scope
-                    # Remove old objects
-                    for obj in added_entities:
-                        parent_scope.children.remove(obj)
-                    added_entities = []
                     for child in include_ast.inc_scope.children:
                         added_entities.append(child)
                         if parent_scope is not None:
